@@ -46,6 +46,44 @@ class Cursor:
         return r
 
 
+class LiveListCursor(Cursor):
+    """CPython's list iterators are LAZY: iter(lst) / reversed(lst) keep an index into the live list, so a mutation of the list between two next() calls is seen.
+    reversed: index starts at len-1 and goes down, stops once the index is outside the (current) list; forward: index goes up while index < len(current list)."""
+    def __init__(self, lst, reverse=False):
+        self.lst, self.reverse = lst, reverse
+        self.idx = len(lst) - 1 if reverse else 0
+        self.done = False
+
+    def next(self):
+        if self.done:
+            return False, None
+        if self.reverse:
+            if 0 <= self.idx < len(self.lst):
+                self.idx -= 1
+                return True, self.lst[self.idx + 1]
+        elif self.idx < len(self.lst):
+            self.idx += 1
+            return True, self.lst[self.idx - 1]
+        self.done = True
+        return False, None
+
+    def drain(self):
+        out = []
+        while True:
+            ok, x = self.next()
+            if not ok:
+                return out
+            out.append(x)
+
+    @property
+    def items(self):          # snapshot view for code that only reads what is left
+        return list(reversed(self.lst[:self.idx + 1])) if self.reverse else list(self.lst[self.idx:])
+
+    @property
+    def pos(self):
+        return 0
+
+
 def kind_of(v):
     if v is None:
         return 'none'
@@ -377,6 +415,8 @@ def b_sorted(ex, v, key=None, reverse=False):
 
 
 def b_reversed(ex, v):
+    if isinstance(v, list):
+        return LiveListCursor(v, reverse=True)
     return Cursor(list(reversed(ex.iterate(v))))
 
 
@@ -416,6 +456,8 @@ def b_zip(ex, *vs, strict=False):
 
 
 def b_iter(ex, v):
+    if isinstance(v, list):
+        return LiveListCursor(v)
     return v if isinstance(v, Cursor) else Cursor(ex.iterate(v))
 
 
@@ -724,6 +766,7 @@ _SET = {
     'add': lambda ex, s, x: s.add(x), 'discard': lambda ex, s, x: s.discard(x), 'copy': lambda ex, s: set(s),
     'update': lambda ex, s, xs: s.update(ex.iterate(xs)), 'remove': lambda ex, s, x: s.remove(x),
     'issubset': lambda ex, s, o: all(ex.truth(ex.contains(o, x)) for x in s),
+    'isdisjoint': lambda ex, s, o: not any(ex.truth(ex.contains(o, x)) for x in s),
 }
 _SSET = {'copy': lambda ex, s: SSet(s.arr)}
 
@@ -786,7 +829,19 @@ def _zs_find(ex, s, sub, start=0):
     return z3.IndexOf(s, ex.toz(sub), ex.toz(start))
 
 
+def _zs_split(ex, s, sep=None, maxsplit=-1):
+    """s.split(sep, 1) / s.rsplit(sep, 1) style cut at the FIRST occurrence of a literal separator: forks on whether it occurs"""
+    if not isinstance(sep, str) or sep == '' or maxsplit != 1:
+        raise Unsupported('str.split on a symbolic string: only split(<literal>, 1) is modelled')
+    zsep = z3.StringVal(sep)
+    if ex.truth(z3.Contains(s, zsep)):
+        i = z3.IndexOf(s, zsep, 0)
+        return [z3.SubString(s, 0, i), z3.SubString(s, i + len(sep), z3.Length(s) - i - len(sep))]
+    return [s]
+
+
 _ZSTR = {
+    'split': _zs_split,
     'startswith': _zs_startswith, 'endswith': _zs_endswith, 'find': _zs_find,
     'encode': lambda ex, s, *a: s, 'decode': lambda ex, s, *a: s,     # UTF-8 round trip on the abstract text (T3)
     'replace': lambda ex, s, a, b: z3.Replace(s, ex.toz(a), ex.toz(b)) if False else (_ for _ in ()).throw(Unsupported('str.replace (replaces ALL occurrences; z3 Replace is first-only)')),
